@@ -70,7 +70,16 @@ func cacheEngine(_ []string, in *bufio.Scanner, out *bufio.Writer) {
 					}
 					var idxs []string
 					for _, i := range c.RoundIndices(round, prev) {
-						idxs = append(idxs, natKey(i))
+						// the first bytes after the index prefix: which partial of that signer is cached (first / newest)
+						sg := c.RoundSig(round, prev, i)
+						tag := sg
+						if len(tag) > 2 {
+							tag = tag[2:]
+						}
+						if len(tag) > 4 {
+							tag = tag[:4]
+						}
+						idxs = append(idxs, natKey(i)+"/"+hx(tag))
 					}
 					sort.Strings(idxs)
 					rs = append(rs, natKey(int(round))+":"+hx(prev)+"="+strings.Join(idxs, ","))
